@@ -91,4 +91,51 @@ structure CtxSite where
   bounds : List Bound    -- in the order they were put on
   deriving DecidableEq, Repr
 
+/-! ### round 8b: how every daemon request is built, and the small tables of api/types.go -/
+
+/-- what fills a place of a request path -/
+inductive QVal
+  | lit (s : String)        -- literal text of the format string
+  | var (expr : String)     -- a `%s` (or `+ e`) filled with this expression; local names and the parameters of
+                            -- unexported helpers are resolved to what the exported method was given (`pin.Cid`, …)
+  | unknown (text : String) -- a shape the translator does not read
+  deriving DecidableEq, Repr
+
+/-- `key=value` of the query; `key = ""` is a bare `%s` standing where whole pairs go (`pin/add?arg=%s&%s&…`) -/
+structure QParam where
+  key : String
+  val : QVal
+  deriving DecidableEq, Repr
+
+/-- one request path built inside the connector -/
+structure ReqSite where
+  fn : String
+  endpoint : String
+  params : List QParam
+  deriving DecidableEq, Repr
+
+/-- guard of one arm of a `switch` over a depth / a type string -/
+inductive Guard
+  | cmp (c : Cmp) (n : Int)      -- `maxDepth <c> n`, or `case n:` of `switch pd` (eq)
+  | hasPrefix (p : String)        -- `strings.HasPrefix(t, p)`
+  | strEq (s : String)            -- `t == s`
+  | name (const : String)         -- `case PinModeRecursive:` of `switch pm`
+  | default
+  | unknown (text : String)
+  deriving DecidableEq, Repr
+
+/-- value set by `q.Set(key, v)` in `pinArgs` -/
+inductive ArgVal
+  | lit (s : String)
+  | depth                        -- `strconv.Itoa(int(maxDepth))`
+  | unknown (text : String)
+  deriving DecidableEq, Repr
+
+/-- an arm of a `switch`: guard and what the arm yields (`pinArgs`: the `q.Set` calls; the others: the
+returned constant / the status the receiver is compared with, as written) -/
+structure Arm (α : Type) where
+  guard : Guard
+  out : α
+  deriving DecidableEq, Repr
+
 end CV.C16.Dec
